@@ -782,6 +782,12 @@ func streamCont(o *Out, r *rand.Rand, n int, thorough bool) {
 		{"x = make(S)\ny = make(S)\nx.D.a = 1\nx.C += 5\nx.G = [1]\n[len(x.D), len(y.D), len(x.C), len(y.C), y.G]", "[]iface[int64:1 int64:0 int64:1 int64:0 nil]"},
 		{"x = make(S)\ny = make(S)\ny.D[\"k\"] = 2\ndelete(y.D, \"k\")\nx.D[\"k\"] = 3\n[x.D.k, y.D.k, len(make(S).D)]", "[]iface[int64:3 nil int64:0]"},
 		{"a = make([]S, 2)\na[0].A = 1\n[a[0].A, a[1].A]", "SKIP"},
+		{"t = make([]int64, 2)\nb = t[0]\nvar c = t[1]\nt[0] = 5\nt[1] = 6\n[b, c]", "[]iface[int64:0 int64:0]"},
+		{"t = make([]string, 2)\nt[0] = \"p\"\nfunc f(v) { t[0] = \"q\"; return v }\nf(t[0])", "string:" + hexOf("p")},
+		{"t = make([]int64, 3)\nt[0] = 1\nt[1] = 2\nt[0], t[1] = t[1], t[0]\nt", "[]int64[int64:2 int64:1 int64:0]"},
+		{"t = make([]int64, 2)\nt[0] = 7\nr = []\nfor v in t {\nt[0] = 9\nt[1] = 9\nr += v\n}\nr", "[]iface[int64:7 int64:9]"},
+		{"x = make(S)\nx.A = 1\nv = x.A\nx.A = 3\n[v, x.A]", "[]iface[int64:1 int64:3]"},
+		{"x = make(S)\ny = x\ny.A = 4\n[x.A, y.A]", "SKIP"},
 		{"x = make(S)\nx.Nope = 1", "ERROR"}, {"x = make(S)\nx.Nope", "ERROR"}, {"x = make(S)\nx.A = 3\nx.A", "int64:3"},
 		{"x = make(S)\nx.C = [1, 2]\nx.C[1]", "int64:2"}, {"x = make(S)\nx.D = {\"a\": 1}\nx.D.a", "int64:1"}, {"x = make(S)\nx.G = [1]\nx.G", "[]iface[int64:1]"},
 	} {
